@@ -65,7 +65,7 @@ def make_world():
 		pass
 
 	def settings() -> SymbolMapping:
-		return SymbolMapping(symbols={Root: ['r'], A1: ['a'], A2: ['a'], B1: ['b'], B2: ['b'], Empty: ['__empty__']}, fallback=Terminal)
+		return SymbolMapping(symbols={Root: ['r'], A1: ['a'], A2: ['a'], B1: ['ab'], B2: ['ab'], Empty: ['__empty__']}, fallback=Terminal)
 
 	def to_lark(case: dict, n: int):
 		t = case['tag'][n - 1]
